@@ -225,7 +225,7 @@ Qed.
 (* ---- C01, nonce mode ---- *)
 Theorem roundtrip_offline (L : CryptoLaws c) cache r1 r2 r3 data blob cache1 :
   cache_ok cache -> len r2 = 12 -> len r3 = 32 ->
-  (forall k w, kw_wrap c k r1 = Ok w -> len w < U32) -> (forall ct, gcm_enc c r1 r2 data = Ok ct -> len ct < U32) ->
+  (forall kek w, derived_kek h rk rkid sd l0 l1 l2 r3 = Ok kek -> kw_wrap c kek r1 = Ok w -> len w < U32) -> (forall ct, gcm_enc c r1 r2 data = Ok ct -> len ct < U32) ->
   protect_offline c cache r1 r2 r3 data sid (Some rkid) time_ns = (Ok blob, cache1) ->
   cache_ok cache1 /\
   (exists blob2, (let* b := blob_unpack blob in blob_pack b false) = Ok blob2) /\
@@ -241,7 +241,7 @@ Proof.
   destruct (kw_wrap c (kek_nonce c h seed r3) r1) as [w|] eqn:Ew; [|discriminate Hp]. cbn [bind] in Hp.
   set (b := emitted_blob (emitted_kid (gke_flags e0) l0 l1 l2 rkid r3 (gke_domain e0) (gke_forest e0)) sid w ct p) in *.
   assert (Hwf : wf_blob b = true).
-  { destruct He0 as [_ _ _ _ _ _ Hn0]. pose proof (Sw _ _ Ew). pose proof (Sct _ eq_refl). apply emitted_wf; auto; try lia; unfold U32; lia. }
+  { destruct He0 as [_ _ _ _ _ _ Hn0]. assert (len w < U32) by (apply (Sw _ _ ltac:(unfold derived_kek; rewrite Es; reflexivity) Ew)). pose proof (Sct _ eq_refl). apply emitted_wf; auto; try lia; unfold U32; lia. }
   destruct (blob_roundtrip b true Hwf) as (ci & Ep1 & Eu1 & _ & _). unfold trailing in Ep1, Eu1. rewrite app_nil_r in Ep1, Eu1.
   destruct (blob_roundtrip b false Hwf) as (ci2 & Ep2 & Eu2 & _ & _).
   assert (blob = ci /\ cache1 = c1) as [-> ->].
@@ -257,7 +257,7 @@ Qed.
 (* what a successful protect call emitted (used by C19 and C04): the blob is the C06 encoding of this value *)
 Lemma protect_inv cache r1 r2 r3 data blob cache1 :
   cache_ok cache -> len r2 = 12 -> len r3 = 32 ->
-  (forall k w, kw_wrap c k r1 = Ok w -> len w < U32) -> (forall ct, gcm_enc c r1 r2 data = Ok ct -> len ct < U32) ->
+  (forall kek w, derived_kek h rk rkid sd l0 l1 l2 r3 = Ok kek -> kw_wrap c kek r1 = Ok w -> len w < U32) -> (forall ct, gcm_enc c r1 r2 data = Ok ct -> len ct < U32) ->
   protect_offline c cache r1 r2 r3 data sid (Some rkid) time_ns = (Ok blob, cache1) ->
   exists e0 seed w ct p,
     l0 <= 2147483647 /\ cache_ok cache1 /\ env_ok c h rk rkid sd l0 e0 /\ cc_find_seed (cc_seeds cache1) (rkid, sd, l0) = Some e0 /\
@@ -276,7 +276,7 @@ Proof.
   exists e0, seed, w, ct, p. cbv zeta.
   set (b := emitted_blob (emitted_kid (gke_flags e0) l0 l1 l2 rkid r3 (gke_domain e0) (gke_forest e0)) sid w ct p) in *.
   assert (Hwf : wf_blob b = true).
-  { destruct He0 as [_ _ _ _ _ _ Hn0]. pose proof (Sw _ _ Ew). pose proof (Sct _ eq_refl). apply emitted_wf; auto; try lia; unfold U32; lia. }
+  { destruct He0 as [_ _ _ _ _ _ Hn0]. assert (len w < U32) by (apply (Sw _ _ ltac:(unfold derived_kek; rewrite Es; reflexivity) Ew)). pose proof (Sct _ eq_refl). apply emitted_wf; auto; try lia; unfold U32; lia. }
   destruct (blob_roundtrip b true Hwf) as (ci & Ep1 & Eu1 & _ & _). unfold trailing in Ep1, Eu1. rewrite app_nil_r in Ep1, Eu1.
   assert (blob = ci /\ cache1 = c1) as [-> ->] by (rewrite Ep1 in Hp; split; congruence).
   destruct (derived_seed_ok h rk rkid sd l0 l1 l2 (conj H0 Hb) H1 H2 Hne) as (seed' & Es' & Hn). rewrite Es in Es'. apply Ok_inj in Es'. subst seed'.
@@ -306,3 +306,100 @@ Lemma cache_ok_fresh h rk rkid sd l0 cache : cc_find_root (cc_roots cache) rkid 
   cc_find_seed (cc_seeds cache) (rkid, sd, l0) = None -> cache_ok c h rk rkid sd l0 cache.
 Proof. intros Hr Hs. split; [exact Hr|]. rewrite Hs. discriminate. Qed.
 End C01.
+
+(* ---- the hypotheses are satisfiable: instances under the guarded symbolic crypto ---- *)
+Definition ex_rk : root_key :=
+  {| rk_key := repeat 7 64; rk_version := 1; rk_kdf_alg := STR_KDF_ALG; rk_kdf_params := KekExamples.ex_kdf_params;
+     rk_secret_alg := STR_DH; rk_secret_params := None; rk_priv_len := 512; rk_pub_len := 2048 |}.
+Definition ex_rkid : bytes := repeat 5 16.
+Definition ex_cache : ccache := cc_load cc_empty ex_rkid ex_rk.
+Definition ex_sid : pystr := ascii_str "S-1-5-21-1-2-3-500".
+(* 15 sub-authorities with the extreme values 0 and 2^32 - 1 *)
+Definition ex_sid15 : pystr := ascii_str "S-1-5-0-4294967295-2-3-4-5-6-7-8-9-10-11-12-13-4294967295".
+Definition parsed (str : pystr) : sid := match sid_parse str with Ok s => s | Raise _ => {| sid_rev := 0; sid_auth := 0; sid_subs := [] |} end.
+Definition ex_time : Z := 1700000000000000000.
+(* one 100 ns tick before the boundary between L0 = 361 and L0 = 362 *)
+Definition ex_time_l0 : Z := 1700294399999999900.
+Definition ex_r1 : bytes := repeat 1 32.
+Definition ex_r2 : bytes := repeat 2 12.
+Definition ex_r3 : bytes := repeat 3 32.
+
+Lemma symg_kdf_nonempty : kdf_nonempty symg.
+Proof. intros h key label ctx. cbn [kdf symg]. unfold sym_kdf, symterm. discriminate. Qed.
+
+Lemma ex_intervals : interval_of_time_ns ex_time = (361, 31, 23) /\ interval_of_time_ns ex_time_l0 = (361, 31, 31) /\
+  interval_of_time_ns (ex_time_l0 + 100) = (362, 0, 0).
+Proof. repeat split; vm_compute; reflexivity. Qed.
+
+Ltac ex_wrap_size := intros kek w Ek Ew; vm_compute in Ek; apply Ok_inj in Ek; subst kek; vm_compute in Ew; apply Ok_inj in Ew; subst w; vm_compute; reflexivity.
+Ltac ex_gcm_size := intros ct Ect; vm_compute in Ect; apply Ok_inj in Ect; subst ct; vm_compute; reflexivity.
+Ltac ex_wrap_ok := intros kek Ek; vm_compute in Ek; apply Ok_inj in Ek; subst kek; eexists; split; [vm_compute; reflexivity|vm_compute; reflexivity].
+Ltac ex_gcm_ok := eexists; split; [apply symg_gcm_enc_ok; vm_compute; reflexivity|rewrite len_symterm; cbn [fold_right]; unfold U32; vm_compute; reflexivity].
+
+(* one instance: every hypothesis of protect_succeeds / roundtrip_offline holds, hence so do the conclusions *)
+Lemma example_roundtrip sid time l0 l1 l2 data :
+  sid_parse sid = Ok (parsed sid) -> sid_okb sid = true -> 0 <= time < 79164825555398400000000000 ->
+  interval_of_time_ns time = (l0, l1, l2) ->
+  (forall kek, derived_kek symg SHA512 ex_rk ex_rkid (target_sd (parsed sid)) l0 l1 l2 ex_r3 = Ok kek ->
+     exists w, kw_wrap symg kek ex_r1 = Ok w /\ len w < U32) ->
+  (exists ct, gcm_enc symg ex_r1 ex_r2 data = Ok ct /\ len ct < U32) ->
+  exists blob cache1,
+    protect_offline symg ex_cache ex_r1 ex_r2 ex_r3 data sid (Some ex_rkid) time = (Ok blob, cache1) /\
+    fst (unprotect_offline symg cache1 blob) = Ok data /\ fst (unprotect_offline symg ex_cache blob) = Ok data /\
+    exists blob2, (let* b := blob_unpack blob in blob_pack b false) = Ok blob2 /\
+      fst (unprotect_offline symg cache1 blob2) = Ok data /\ fst (unprotect_offline symg ex_cache blob2) = Ok data.
+Proof.
+  intros Hs Hso Ht Hi Sw Sct.
+  assert (Hh : rk_hash ex_rk = Ok SHA512) by (vm_compute; reflexivity).
+  assert (Hc : cache_ok symg SHA512 ex_rk ex_rkid (target_sd (parsed sid)) l0 ex_cache) by (apply cache_ok_fresh; reflexivity).
+  destruct (protect_succeeds symg SHA512 ex_rk ex_rkid (parsed sid) sid time l0 l1 l2 Hh eq_refl eq_refl Hs Hso (proj1 Ht) Hi symg_kdf_nonempty
+              ex_cache ex_r1 ex_r2 ex_r3 data Hc eq_refl eq_refl (proj2 Ht) Sw Sct) as (blob & cache1 & Ep).
+  exists blob, cache1. split; [exact Ep|].
+  assert (Sw' : forall kek w, derived_kek symg SHA512 ex_rk ex_rkid (target_sd (parsed sid)) l0 l1 l2 ex_r3 = Ok kek -> kw_wrap symg kek ex_r1 = Ok w -> len w < U32).
+  { intros kek w Ek Ew. destruct (Sw kek Ek) as (w' & Ew' & Hl). rewrite Ew in Ew'. apply Ok_inj in Ew'. now subst w'. }
+  assert (Sct' : forall ct, gcm_enc symg ex_r1 ex_r2 data = Ok ct -> len ct < U32).
+  { intros ct Ect. destruct Sct as (ct' & Ect' & Hl). rewrite Ect in Ect'. apply Ok_inj in Ect'. now subst ct'. }
+  destruct (roundtrip_offline symg SHA512 ex_rk ex_rkid (parsed sid) sid time l0 l1 l2 Hh eq_refl eq_refl Hs Hso (proj1 Ht) Hi symg_kdf_nonempty
+              symg_laws ex_cache ex_r1 ex_r2 ex_r3 data blob cache1 Hc eq_refl eq_refl Sw' Sct' Ep) as (Hc1 & (blob2 & E2) & HX).
+  destruct (HX cache1 Hc1) as [U1 U1']. destruct (HX ex_cache Hc) as [U2 U2'].
+  split; [exact U1|]. split; [exact U2|]. exists blob2. split; [exact E2|]. split; [apply U1', E2|apply U2', E2].
+Qed.
+
+Definition example_statement (sid : pystr) (time : Z) (data : bytes) : Prop :=
+  exists blob cache1,
+    protect_offline symg ex_cache ex_r1 ex_r2 ex_r3 data sid (Some ex_rkid) time = (Ok blob, cache1) /\
+    fst (unprotect_offline symg cache1 blob) = Ok data /\ fst (unprotect_offline symg ex_cache blob) = Ok data /\
+    exists blob2, (let* b := blob_unpack blob in blob_pack b false) = Ok blob2 /\
+      fst (unprotect_offline symg cache1 blob2) = Ok data /\ fst (unprotect_offline symg ex_cache blob2) = Ok data.
+
+(* empty plaintext *)
+Example example_empty : example_statement ex_sid ex_time [].
+Proof.
+  apply (example_roundtrip ex_sid ex_time 361 31 23 []); [vm_compute; reflexivity|vm_compute; reflexivity|unfold ex_time; lia|vm_compute; reflexivity|ex_wrap_ok|ex_gcm_ok].
+Qed.
+(* 70 000 bytes, 15 sub-authorities, one tick before an L0 boundary *)
+Example example_large : example_statement ex_sid15 ex_time_l0 (repeat 9 70000).
+Proof.
+  apply (example_roundtrip ex_sid15 ex_time_l0 361 31 31 (repeat 9 70000)); [vm_compute; reflexivity|vm_compute; reflexivity|unfold ex_time_l0; lia|vm_compute; reflexivity|ex_wrap_ok|ex_gcm_ok].
+Qed.
+(* first tick of the next L0 interval *)
+Example example_next_l0 : example_statement ex_sid (ex_time_l0 + 100) [0; 255].
+Proof.
+  apply (example_roundtrip ex_sid (ex_time_l0 + 100) 362 0 0 [0; 255]); [vm_compute; reflexivity|vm_compute; reflexivity|unfold ex_time_l0; lia|vm_compute; reflexivity|ex_wrap_ok|ex_gcm_ok].
+Qed.
+
+(* A cache that "merely has the same root key loaded" is not enough: an entry of the triple that does not conform to
+   the chain of the root key (here: a covering envelope with an arbitrary L1 key) makes _get_key answer from it, and
+   unprotect fails.  Hence the hypothesis cache_ok on the decrypting cache. *)
+Definition bad_entry (l0 : Z) : envelope :=
+  {| gke_version := 1; gke_flags := 2; gke_l0 := l0; gke_l1 := 31; gke_l2 := 31; gke_rkid := ex_rkid;
+     gke_kdf_alg := STR_KDF_ALG; gke_kdf_params := KekExamples.ex_kdf_params; gke_secret_alg := STR_DH; gke_secret_params := [];
+     gke_priv_len := 512; gke_pub_len := 2048; gke_domain := []; gke_forest := []; gke_l1_key := repeat 66 64; gke_l2_key := [] |}.
+Example nonconforming_cache_entry :
+  let cache2 := cc_set_seed ex_cache (ex_rkid, target_sd (parsed ex_sid), 361) (bad_entry 361) in
+  cc_find_root (cc_roots cache2) ex_rkid = Some ex_rk /\
+  match protect_offline symg ex_cache ex_r1 ex_r2 ex_r3 [1; 2; 3] ex_sid (Some ex_rkid) ex_time with
+  | (Ok blob, cache1) => fst (unprotect_offline symg cache1 blob) = Ok [1; 2; 3] /\ fst (unprotect_offline symg cache2 blob) = Raise InvalidUnwrap
+  | _ => False
+  end.
+Proof. split; vm_compute; auto. Qed.
